@@ -59,7 +59,14 @@ func shape(h *ref.PES) string {
 
 func checkHeader(c *mon.Ctx, h *ref.PES) (b []byte, hdrEnd int, ok bool) {
 	b, hdrEnd = h.Bytes()
+	b = gen.SlackBy(b, gen.HashString(string(b)))
 	snap := append([]byte{}, b...)
+	if gen.HashString(string(b))%8 == 3 {
+		// right after calls that fail: no state is carried over
+		pes.NewPESHeader(b[:3])
+		pes.NewPESHeader(nil)
+		c.Count("decode_after_failed_decode")
+	}
 	ph, err := pes.NewPESHeader(b)
 	c.Eval(1)
 	w := func(d string) wit { return wit{mon.Hex(snap), shape(h), d} }
